@@ -58,7 +58,7 @@ def run_ul(c):
     import canopen.sdo.client as cl
     od = _setup()
     value = value_of(c)
-    srv = bs.RefBlockUlServer(value, c["crc_server"])
+    srv = bs.RefBlockUlServer(value, c["crc_server"], c.get("size_ind", True))
     peer = bs.Faulty(srv, c["faults"])
     net = bs.make_net(peer)
     node = net.add_node(1, od)
@@ -72,7 +72,26 @@ def run_ul(c):
     cl.time = _FROZEN
     res = None
     try:
-        if c.get("via", "buffered") == "raw":
+        ks = c.get("ks", [])
+        if c["kind"] == "ulbuf":
+            # the buffered reader that open() returns, with a small buffer: read(n) ... then read()
+            with node.sdo.open(c["index"], c["sub"], "rb", buffering=c["buffering"], block_transfer=True,
+                               request_crc_support=c["crc_client"]) as f:
+                res = b""
+                for n in c["reads"]:
+                    res += f.read(n)
+                res += f.read()
+        elif ks:
+            # raw stream: readinto() with small buffers, then read()
+            with node.sdo.open(c["index"], c["sub"], "rb", buffering=0, block_transfer=True,
+                               request_crc_support=c["crc_client"]) as f:
+                res = b""
+                for k in ks:
+                    buf = bytearray(k)
+                    got = f.readinto(buf)
+                    res += bytes(buf[:got])
+                res += f.read()
+        elif c.get("via", "buffered") == "raw":
             with node.sdo.open(c["index"], c["sub"], "rb", buffering=0, block_transfer=True,
                                request_crc_support=c["crc_client"]) as f:
                 res = f.read()
@@ -94,7 +113,7 @@ def run_ul(c):
 
 def impl(c):
     k = c["kind"]
-    if k == "ul":
+    if k in ("ul", "ulbuf"):
         o = run_ul(c)
         # the wall-clock guard of _retransmit can only fire when the process was stalled for longer than
         # RESPONSE_TIMEOUT between two queue reads; that is not behaviour of the logic: run again
@@ -128,13 +147,16 @@ def oracle(c, o):
     if k == "crc":
         exp = bs.crc16(bytes(c["data"]), c["init"])
         return None if o == exp else ("crc_hqx_differs", f"{o!r} != {exp:#x}")
-    if k != "ul" or not conformant_case(c):
+    if k not in ("ul", "ulbuf") or not conformant_case(c):
         return None
     value = value_of(c)
     res, ended, bad, acks_exact, _ = o
     d = getattr(o, "detail", None)
     faults = c["faults"]
-    what = f"len={len(value)} blksize={c['blksize']} crc={int(c['crc_client'])}{int(c['crc_server'])} faults={faults}"
+    what = (f"len={len(value)} blksize={c['blksize']} crc={int(c['crc_client'])}{int(c['crc_server'])} "
+            f"size_ind={int(c.get('size_ind', True))} faults={faults}"
+            + (f" readinto={c['ks']}" if c.get("ks") else "")
+            + (f" buffering={c['buffering']} reads={c['reads']}" if k == "ulbuf" else ""))
     exp = dview(c["full"], value)
     is_err = isinstance(res, (Err, Abort))
     if not faults:
@@ -163,6 +185,12 @@ def oracle(c, o):
         return ("upload_disturbed_non_sdo_error", f"{what}: ended with {res!r}, not an SDO error")
     if res != exp:
         got = d["data"] if d else None
+        if (not c.get("size_ind", True)) and d is not None and isinstance(got, bytes) and bs.crc16(got) == bs.crc16(value):
+            ends = [i + 1 for i, fr in enumerate(d["peer"].server_frames) if fr[0] & 0xE3 == 0xC1 and fr[3:] == bytes(5)]
+            if any(f[0] == "xors" and f[1] in ends and f[2] == 0 for f in faults):
+                # the unused-byte count of the end frame itself was corrupted, no size was announced and the CRC of the
+                # wrong-length data equals the announced one (e.g. zeros): nothing the client is told can reveal it
+                return None
         detail = f"{what}: returned normally {len(got) if isinstance(got, bytes) else '?'} bytes that differ from the value ({len(value)} bytes)"
         if len(faults) == 1 and faults[0][0] == "drops" and d is not None:
             # was the lost frame the last one the server sent before waiting (only a time-out reveals it)?
@@ -186,29 +214,37 @@ def coq_case(c):
     k = c["kind"]
     if k == "ul":
         return (f"CUl {gbool(c['full'])} {gz(c['index'])} {gz(c['sub'])} {gz(c['blksize'])} {gbool(c['crc_client'])} "
-                f"{gbool(c['crc_server'])} {glist([gfault(f) for f in c['faults']])} "
-                f"{gz(c['zeros'])} {gz(c['seed'])} {gz(c['n'])} {gzlist(c['lit'])}")
+                f"{gbool(c['crc_server'])} {gbool(c.get('size_ind', True))} {glist([gfault(f) for f in c['faults']])} "
+                f"{gz(c['zeros'])} {gz(c['seed'])} {gz(c['n'])} {gzlist(c['lit'])} {gzlist(c.get('ks', []))}")
     if k == "crc":
         return f"CUCrc {gz(c['init'])} {gzlist(c['data'])}"
     raise ValueError(k)
 
 
 def nontrivial(c):
-    if c["kind"] != "ul":
+    if c["kind"] == "crc":
         return len(c["data"]) > 0
     return c["zeros"] + c["n"] + len(c["lit"]) > 7 or bool(c["faults"])
 
 
 # ------------------------------------------------------------------ generators
 def ul(n, blksize=127, crc_client=True, crc_server=True, faults=(), zeros=0, seed=1, lit=(), via="buffered", full=None,
-       index=INDEX, sub=0, model=True):
+       index=INDEX, sub=0, model=True, size_ind=True, ks=()):
     total = zeros + n + len(lit)
     c = dict(kind="ul", full=(total <= 70 if full is None else full), index=index, sub=sub, blksize=blksize,
-             crc_client=crc_client, crc_server=crc_server, faults=[list(f) for f in faults], zeros=zeros, seed=seed,
-             n=n, lit=list(lit), via=via)
+             crc_client=crc_client, crc_server=crc_server, size_ind=size_ind, faults=[list(f) for f in faults], zeros=zeros,
+             seed=seed, n=n, lit=list(lit), via=via, ks=list(ks))
     if not model:
         c["model"] = False
     return c
+
+
+def ulbuf(n, buffering, reads, blksize=127, crc_client=True, crc_server=True, faults=(), zeros=0, seed=1, size_ind=True):
+    """io.BufferedReader(raw, buffer_size=buffering): read(k) for k in reads, then read(); implementation + oracle only"""
+    total = zeros + n
+    return dict(kind="ulbuf", full=total <= 70, index=INDEX, sub=0, blksize=blksize, crc_client=crc_client,
+                crc_server=crc_server, size_ind=size_ind, faults=[list(f) for f in faults], zeros=zeros, seed=seed, n=n,
+                lit=[], buffering=buffering, reads=list(reads), model=False)
 
 
 def nframes(total, blksize):
@@ -242,10 +278,12 @@ def gen_cases(rng, tier):
         cc, sc = crcs[n % 4]
         cases.append(ul(n, 127, True, True, seed=rs(), via=("raw" if n % 3 == 0 else "buffered")))
         cases.append(ul(n, rng.choice([1, 2, 3, 5, 7, 8, 126, rng.randint(1, 127)]), cc, sc, seed=rs()))
+        cases.append(ul(n, rng.choice([127, 127, rng.randint(1, 127)]), *crcs[(n + 1) % 4], seed=rs(), size_ind=False,
+                        via=("raw" if n % 4 == 0 else "buffered")))
     for n in boundaries(2700 if quick else 10000):
         if n > 60:
             cases.append(ul(n, 127, *rng.choice(crcs), seed=rs(), via=rng.choice(["raw", "buffered"])))
-            cases.append(ul(n, rng.choice([1, 7, 126, 100]), True, True, seed=rs()))
+            cases.append(ul(n, rng.choice([1, 7, 126, 100]), True, True, seed=rs(), size_ind=(n % 2 == 0)))
     cases.append(ul(0, 127, zeros=100))
     cases.append(ul(0, 3, zeros=50, crc_client=False, crc_server=True))
     cases.append(ul(20, 127, False, True, seed=7))
@@ -267,17 +305,27 @@ def gen_cases(rng, tier):
                 continue
             j = s + 1
             via = "raw" if s % 5 == 0 else "buffered"
-            cases.append(ul(n, blksize, faults=[["drops", j]], zeros=zeros, seed=rs(), via=via))
-            cases.append(ul(n, blksize, faults=[["xors", j, rng.randint(1, 7), 1 << rng.randint(0, 7)]], zeros=zeros, seed=rs()))
-            cases.append(ul(n, blksize, faults=[["xors", j, 0, 1 << rng.randint(0, 7)]], zeros=zeros, seed=rs()))
+            si = lambda: rng.random() < 0.6          # size announced by the server or not (both are conformant)
+            cases.append(ul(n, blksize, faults=[["drops", j]], zeros=zeros, seed=rs(), via=via, size_ind=si()))
+            cases.append(ul(n, blksize, faults=[["xors", j, rng.randint(1, 7), 1 << rng.randint(0, 7)]], zeros=zeros, seed=rs(),
+                            size_ind=si()))
+            cases.append(ul(n, blksize, faults=[["xors", j, 0, 1 << rng.randint(0, 7)]], zeros=zeros, seed=rs(), size_ind=si()))
             if s % 4 == 1 or not quick:
-                cases.append(ul(n, blksize, faults=[["dups", j]], zeros=zeros, seed=rs()))
-                cases.append(ul(n, blksize, *rng.choice(crcs[1:]), faults=[["drops", j]], zeros=zeros, seed=rs()))
+                cases.append(ul(n, blksize, faults=[["dups", j]], zeros=zeros, seed=rs(), size_ind=si()))
+                cases.append(ul(n, blksize, *rng.choice(crcs[1:]), faults=[["drops", j]], zeros=zeros, seed=rs(), size_ind=si()))
     # all 64 bit positions of one segment
     for n, s in ((30, 2), (30, 5)):
         for byte in range(8):
             for bit in range(8):
-                cases.append(ul(n, 127, faults=[["xors", s + 1, byte, 1 << bit]], seed=rs()))
+                cases.append(ul(n, 127, faults=[["xors", s + 1, byte, 1 << bit]], seed=rs(), size_ind=(s == 2)))
+    # one flipped data bit / a wrong checksum against a server that does not announce the size (s=0) but supports the
+    # CRC (sc=1): only the CRC stands between the corruption and the caller
+    for n in (5, 20, 100, 1000):
+        nseg = (n + 6) // 7
+        for s in sorted({1, 2, nseg // 2 + 1, nseg - 1, nseg} & set(range(1, nseg + 1))):
+            cases.append(ul(n, 127, faults=[["xors", s + 1, 1, 0x10]], seed=rs(), size_ind=False))
+        cases.append(ul(n, 127, faults=[["xors", nseg + 2, 1, 0x01]], seed=rs(), size_ind=False))
+        cases.append(ul(n, 127, faults=[["xors", nseg + 2, 2, 0x80]], seed=rs(), size_ind=False))
     # ---- corrupted data whose CRC-16 differs from the right one in ONE byte only (a comparison of half the CRC misses
     #      it).  By linearity the difference depends only on the position of the flipped bit, not on the data.
     found = {"low": [], "high": []}
@@ -295,13 +343,14 @@ def gen_cases(rng, tier):
             break
     for kind in ("low", "high"):
         for n, off, bit in found[kind][:(2 if quick else 6)]:
-            cases.append(ul(n, 127, faults=[["xors", off // 7 + 2, off % 7 + 1, 1 << bit]], seed=rs()))
+            cases.append(ul(n, 127, faults=[["xors", off // 7 + 2, off % 7 + 1, 1 << bit]], seed=rs(), size_ind=(bit % 2 == 0)))
     # ---- wrong CRC, wrong end frame: every bit of the end frame's command and CRC bytes; initiate response bits
     for n, blksize, zeros in ((10, 127, 0), (33, 127, 0), (35, 4, 0), (0, 127, 10), (5, 127, 14)):
         nseg, nsf = nframes(n + zeros, blksize)
         for byte in (0, 1, 2):
             for bit in range(8):
                 cases.append(ul(n, blksize, faults=[["xors", nsf, byte, 1 << bit]], zeros=zeros, seed=rs()))
+                cases.append(ul(n, blksize, faults=[["xors", nsf, byte, 1 << bit]], zeros=zeros, seed=rs(), size_ind=False))
                 if byte == 0 or bit < 2:
                     cases.append(ul(n, blksize, faults=[["xors", 1, byte + (3 if byte else 0), 1 << bit]], zeros=zeros, seed=rs()))
         cases.append(ul(n, blksize, faults=[["xors", nsf, 1, 0xFF], ["xors", nsf, 2, 0xFF]], zeros=zeros, seed=rs()))
@@ -324,13 +373,41 @@ def gen_cases(rng, tier):
                        "aborts": ["aborts", j, rng.choice([0x05040000, 0x06090011])]}[t])
         z = rng.choice([0, 0, n])
         cases.append(ul(n - z, blksize, *(rng.choice(crcs) if rng.random() < 0.3 else (True, True)), faults=fs, zeros=z, seed=rs()))
+    # ---- other callers of the same stream (undisturbed unless noted): readinto() with buffers smaller than a segment and
+    #      then read(); the buffered reader of open(buffering=k) with read(n) ... read()
+    lens = list(range(1, 25 if quick else 101)) + [888, 889, 890, 893]
+    for n in lens:
+        nseg, lastlen = (n + 6) // 7, n - 7 * ((n - 1) // 7)
+        pats = [[h] for h in (1, 2, 4, 9)] + [[7] * (nseg - 1) + [k] for k in range(1, lastlen)]
+        if n <= 20:
+            pats += [[1] * (n - 1), [1] * (n + 2), [3] * ((n + 2) // 3), [6, 1] * nseg]
+        pats.append([rng.randint(1, 9) for _ in range(rng.randint(1, 2 * nseg))][:40])
+        if quick and n > 12:
+            pats = rng.sample(pats, min(len(pats), 3)) + ([pats[4 + lastlen // 2]] if lastlen > 1 else [])
+        if n > 100:
+            pats = [[7] * (nseg - 1) + [k] for k in {1, max(1, lastlen - 1)} if k < lastlen] + [[2], [9, 9, 1]]
+        for ks in pats:
+            cc, sc = rng.choice(crcs)
+            cases.append(ul(n, rng.choice([127, 127, 3]), cc, sc, seed=rs(), ks=ks, size_ind=rng.random() < 0.7))
+        for buffering, reads in ((2, [1]), (3, [2]), (4, [2]), (5, [1, 3]), (6, [5]), (7, [3, 3]), (8, [n - 1] if n > 1 else [1]),
+                                 (16, [9]), (4, [2, 2, 2]), (1024, [2])):
+            if quick and rng.random() < 0.6 and n not in (7, 8, 13, 14, 15, 889, 890):
+                continue
+            cc, sc = rng.choice(crcs)
+            cases.append(ulbuf(n, buffering, reads, rng.choice([127, 127, 2]), cc, sc, seed=rs(), size_ind=rng.random() < 0.7))
+    for n in (10, 30, 60):                     # the same callers on a disturbed transfer
+        nseg = (n + 6) // 7
+        for s in range(1, nseg + 1):
+            cases.append(ul(n, 127, faults=[["drops", s + 1]], seed=rs(), ks=[2, 9, 1]))
+            cases.append(ul(n, 127, faults=[["xors", s + 1, 2, 4]], seed=rs(), ks=[7] * (nseg - 1) + [1], size_ind=False))
+            cases.append(ulbuf(n, 4, [2], faults=[["xors", s + 1, 3, 1]], seed=rs(), size_ind=(s % 2 == 0)))
     # ---- lost client frames (outside the property text: model tie only)
     for n, blksize in ((10, 127), (30, 2), (40, 3)):
         nseg, nsf = nframes(n, blksize)
         for k in range(1, 3 + (nseg + blksize - 1) // blksize + 2):
             cases.append(ul(n, blksize, faults=[["dropc", k]], seed=rs()))
     if tier == "search":
-        cases = [c for c in cases if c["kind"] == "ul"]
+        cases = [c for c in cases if c["kind"] in ("ul", "ulbuf")]
     rng.shuffle(cases)        # spread the long transfers over the model-evaluation chunks
     return cases
 
